@@ -86,11 +86,19 @@ def classify(case, real, model):
     return why, viol, mp
 
 
-def shrink_case(case, exe, still):
-    """Greedy: drop actions, then steps of bodies, while `still(line, real_out)` holds."""
+def shrink_case(case, exe, still0, budget_s=45):
+    """Greedy: drop actions, then steps of bodies, while `still(line, real_out)` holds (within a time budget:
+    a broken runtime may make every run end in the watchdog)."""
+    import time
     sc = G.parse_line(case)
+    deadline = time.time() + budget_s
+
+    def still(s, out):
+        return time.time() < deadline and still0(s, out)
 
     def run1(s):
+        if time.time() >= deadline:
+            return ""
         return rtmock.run(exe, [s.line()], timeout=60)[0]
 
     acts = vf.shrink_list(sc.actions, lambda a: still(G.Sc(sc.feat, sc.mode, sc.ops, sc.bodies, sc.roots, a), run1(G.Sc(sc.feat, sc.mode, sc.ops, sc.bodies, sc.roots, a))), max_steps=200) if sc.actions else []
